@@ -14,6 +14,10 @@ table is the generated `HydroVerif.Generated.FlowDir.codes`:
   river nrows ncols [fd] xll yll csz start nval      -> ok:[cell,dist,dx,dy,x,y;...] | err:badCell
   fpath nrows ncols [fd] outlet [cells]              -> [end,length,nsteps,ndiag;...]   (nval = number of cells)
   fpath_pinned ...                                   -> same with the step classification of the pinned kernel
+  hist nrows ncols [fd] op;op;...                    -> reply|reply|...   one object, calls in order:
+       D:outlet:[inlets]:nval  (ok:[area] | err:kind)     F  (ok:[start,end,length;...] | err:noArea)
+       S:cell:code  (-)   G:[fd]  (-)   U:[cells] / W:[cells]  (as up / down on the current grid)
+       R:start:nval  (ok:[cell,dist,dx,dy;...] | err:badCell on the current grid)
 -/
 
 def codes : List Int := HydroVerif.Generated.FlowDir.codes
@@ -30,6 +34,7 @@ def errName : Err → String
   | .areaFull => "areaFull"
   | .bufferFull => "bufferFull"
   | .outletFull => "outletFull"
+  | .noArea => "noArea"
   | .fuel => "fuel"
 
 def fmtRows (rows : List (List String)) : String :=
@@ -41,6 +46,65 @@ def fpathReply (g : FlowGrid) (diag : Int → Int → Bool) (outlet : Int) (cell
     let r := flowPathWith codes g outlet diag nval c
     let len : Float := pathLength r.2
     [toString r.1, hexOfFloat len, toString r.2.length, toString (r.2.filter id).length])
+
+def tableReply (rows : List (Int × Int × List Bool)) : String :=
+  fmtRows (rows.map fun r =>
+    let len : Float := pathLength r.2.2
+    [toString r.1, toString r.2.1, hexOfFloat len])
+
+/-- one call of a history; queries (`U`, `W`, `R`) are evaluated on the grid the object holds now -/
+def histOne (s : CatchState) (tok : String) : CatchState × String :=
+  match tok.splitOn ":" with
+  | ["D", o, inl, nval] =>
+    match o.toInt?, parseIntList? inl, nval.toInt? with
+    | some o, some inl, some nval =>
+      match histStep codes s (.delineate o inl nval) with
+      | (s', .area (.ok a)) => (s', "ok:" ++ fmtIntList a)
+      | (s', .area (.error e)) => (s', "err:" ++ errName e)
+      | (s', _) => (s', "bad-op")
+    | _, _, _ => (s, "bad-op")
+  | ["F"] =>
+    match histStep codes s .flowpaths with
+    | (s', .table (.ok rows)) => (s', "ok:" ++ tableReply rows)
+    | (s', .table (.error e)) => (s', "err:" ++ errName e)
+    | (s', _) => (s', "bad-op")
+  | ["S", c, v] =>
+    match c.toInt?, v.toInt? with
+    | some c, some v => ((histStep codes s (.setCell c v)).1, "-")
+    | _, _ => (s, "bad-op")
+  | ["G", fd] =>
+    match parseIntList? fd with
+    | some fd => ((histStep codes s (.setGrid (mkGrid s.grid.nrows s.grid.ncols fd).fd)).1, "-")
+    | none => (s, "bad-op")
+  | ["U", cells] =>
+    match parseIntList? cells with
+    | some cs =>
+      match mapCells (upstream codes s.grid) cs with
+      | .ok l => (s, "ok:" ++ fmtRows (l.map fun r => (upstreamRow r).map toString))
+      | .error e => (s, "err:" ++ errName e)
+    | none => (s, "bad-op")
+  | ["W", cells] =>
+    match parseIntList? cells with
+    | some cs =>
+      match mapCells (downstream codes s.grid) cs with
+      | .ok l => (s, "ok:" ++ fmtIntList l)
+      | .error e => (s, "err:" ++ errName e)
+    | none => (s, "bad-op")
+  | ["R", start, nval] =>
+    match start.toInt?, nval.toInt? with
+    | some start, some nval =>
+      match (delineateRiver codes s.grid start nval : Except Err (List (RiverRow Float))) with
+      | .ok rows => (s, "ok:" ++ fmtRows (rows.map fun r =>
+          [toString r.cell, hexOfFloat r.dist, toString r.dx, toString r.dy]))
+      | .error e => (s, "err:" ++ errName e)
+    | _, _ => (s, "bad-op")
+  | _ => (s, "bad-op")
+
+def histReply (s : CatchState) (toks : List String) : String :=
+  let r := toks.foldl (fun (acc : CatchState × List String) tok =>
+    let r := histOne acc.1 tok
+    (r.1, r.2 :: acc.2)) (s, [])
+  "|".intercalate r.2.reverse
 
 def handle (toks : List String) : String :=
   match toks with
@@ -62,7 +126,7 @@ def handle (toks : List String) : String :=
   | ["area", nr, nc, fd, outlet, inlets, nval] =>
     match nr.toInt?, nc.toInt?, parseIntList? fd, outlet.toInt?, parseIntList? inlets, nval.toInt? with
     | some nr, some nc, some fd, some o, some inl, some nval =>
-      match delineateArea codes (mkGrid nr nc fd) o inl nval with
+      match wrapperArea codes (mkGrid nr nc fd) o inl nval with
       | .ok l => "ok:" ++ fmtIntList l
       | .error e => "err:" ++ errName e
     | _, _, _, _, _, _ => "bad-op"
@@ -97,6 +161,10 @@ def handle (toks : List String) : String :=
           [toString r.cell, hexOfFloat r.dist, toString r.dx, toString r.dy, hexOfFloat xy.1, hexOfFloat xy.2])
       | .error e => "err:" ++ errName e
     | _, _, _, _, _, _, _, _ => "bad-op"
+  | ["hist", nr, nc, fd, ops] =>
+    match nr.toInt?, nc.toInt?, parseIntList? fd with
+    | some nr, some nc, some fd => histReply (CatchState.init (mkGrid nr nc fd)) (ops.splitOn ";")
+    | _, _, _ => "bad-op"
   | ["fpath", nr, nc, fd, outlet, cells] =>
     match nr.toInt?, nc.toInt?, parseIntList? fd, outlet.toInt?, parseIntList? cells with
     | some nr, some nc, some fd, some o, some cs =>
